@@ -287,6 +287,16 @@ def rule_changelist(P):
     return r
 
 
+def rule_evmap(P):
+    """the per-descriptor bookkeeping in front of the backends (evmap_io_add_ / evmap_io_del_): the backend is told exactly on the 0 <-> 1 transitions of a condition's count, and a
+    backend call that fails leaves the counts as they were - otherwise later adds for the condition never reach the backend, and it reports nothing for an event that was asked for.
+    C05's decision table (engine/props/C05.py: rule_evmap) reused."""
+    from . import C05
+    r = C05.rule_evmap(P)
+    r.id = "C04-evmap"
+    return r
+
+
 def run(ctx, config):
     P = ctx.prog(UNITS, config)
-    return [rule_active(P), rule_maps(P), rule_del(P), rule_changelist(P)]
+    return [rule_active(P), rule_maps(P), rule_del(P), rule_changelist(P), rule_evmap(P)]
